@@ -1,4 +1,4 @@
-from contracts import fold, reach, arity
+from contracts import fold, reach, arity, mro_bounded
 
 def build(tier):
-    return dict(targets=fold.targets(tier) + reach.targets(tier) + arity.targets(tier), assumptions=[], trusted_base=[])
+    return dict(targets=fold.targets(tier) + reach.targets(tier) + arity.targets(tier) + mro_bounded.targets(tier), assumptions=["MRO: bounded stand-in only (exhaustive native comparison with CPython for all hierarchies of 6 classes with at most 3 bases each); generic classes, metaclasses and the dummy object base added by linearize_hierarchy are outside it"], trusted_base=[])
